@@ -32,6 +32,12 @@ buffer fills up (label ``waker_buffer_full``).  ``_waker_w`` is wrapped so that 
 thread is the only one that drains, so the ordinary no-runnable-thread rule reports it as a deadlock
 instead of the harness hanging in the kernel.  Handlers consume the readiness
 they are dispatched for (like reading the data) and optionally unregister themselves (one-shot).
+One case in seven closes *before the wrapped loop has run for the first time* (right after construction or
+after a few registrations; the selector thread is created lazily by a call_soon'ed task), and in half
+of all cases the wrapped loop keeps running after the shutdown (``run_loop_after_close``): everything
+still queued — possibly the thread start itself — runs to quiescence, then the loop is shut down the
+way asyncio does it (``shutdown_asyncgens`` -> ``aclose`` -> ``close()``, a no-op by then).  The shutdown
+clause is evaluated after that: a selector thread created after ``close()`` must terminate too.
 After the program a *fair completion* runs (pending callbacks and the selector thread alternate until
 nothing can move), then the shutdown (``close()``, the ``atexit`` hook, or the async-generator
 ``aclose`` path that ``shutdown_asyncgens`` takes), then ``close()`` again.
@@ -71,6 +77,11 @@ Sensitivity (quick tier, seed 1, one mutant at a time on a scratch copy; all fou
   * ``_waker_w.setblocking(False)`` dropped in ``__init__`` (``_wake_selector``'s BlockingIOError handler
     can no longer fire; ~280 wake-ups in one callback block the loop thread for ever) ... caught
     (C40.deadlock: actor at ``waker_send_blocked``; needs a ``burst`` op)
+  * ``close()``: the whole stop sequence (closing flag + notify, waker write) moved under
+    ``if self._thread is not None`` (a close before the loop's first iteration no longer records the flag;
+    the thread started later blocks in select for ever) ................... caught (C40.thread_alive_after_close /
+    C40.select_in_progress_after_close, thread parked in ``select``; seeds 1..3, < 1 s; minimal case:
+    close right after construction, then the loop runs)
   When ``sched`` has found a violation the ``smoke`` part is skipped (with these mutants it would hang
   until its cap and turn the run into exit 2 = inconclusive).
 """
@@ -97,7 +108,9 @@ RULE = (
     "registration changes in one step (fills the real waker socket), run one loop callback, "
     "close; thread started before or during the program; 1/3 of the programs aimed at the EBADF path) x "
     "generated schedule of <=80 binary choices (then stay-on-thread or always-switch) x "
-    "shutdown path (close / atexit hook / asyncgen aclose) x one-shot handlers; the real SelectorThread "
+    "shutdown path (close / atexit hook / asyncgen aclose; 1/7 of the cases close before the loop's first "
+    "iteration; in half of the cases the wrapped loop keeps running after the shutdown) x one-shot "
+    "handlers; the real SelectorThread "
     "code runs on two real threads serialised by a baton scheduler; non-trivial = the schedule switches "
     "threads >=3 times between a registration change and the next select, or the shutdown lands while "
     "the selector thread is inside select or waiting on the condition; distinct = SHA-1 of the case"
@@ -448,12 +461,46 @@ def run_sched_case(ctx, case):
                     pass
                 else:
                     raise HarnessError("aclose awaited something")
+            if case.get("run_loop_after_close"):
+                # The SelectorThread was closed but the wrapped loop lives on (the class "can be attached
+                # to a running asyncio loop", and its thread is created lazily by a call_soon'ed task): run
+                # everything that is still queued — possibly the thread start itself — until nothing can
+                # move, then shut the loop down the way asyncio does (shutdown_asyncgens -> aclose of the
+                # thread manager -> close(), a no-op by now).
+                phase = "loop_runs_after_close"
+                labels.add("loop_run_after_close")
+                had_thread = probe.__dict__.get("_thread") is not None
+                sched.fair = True
+                for _ in range(4000):
+                    if loop.run_one():
+                        continue
+                    sched.point("idle")
+                    if not loop.queue and not sched.others_ready():
+                        break
+                else:
+                    raise HarnessError("loop after close did not reach quiescence")
+                sched.fair = False
+                if not had_thread and probe.__dict__.get("_thread") is not None:
+                    labels.add("thread_started_after_close")
+                try:
+                    probe._thread_manager_handle.aclose().send(None)
+                except StopIteration:
+                    pass
+                else:
+                    raise HarnessError("aclose awaited something")
             loop.closed = True
             loop.queue.clear()
             phase = "after_shutdown"
             t = probe.__dict__.get("_thread")
-            if t is not None and (not t.finished or t.is_alive()):
-                env.problem("C40.thread_alive_after_close", {"state": selector_state(sched)})
+            if t is not None:
+                if not t.finished:
+                    # nothing is runnable any more and the thread has not returned: it is parked for ever
+                    env.problem("C40.thread_alive_after_close", {"state": selector_state(sched), "phase": phase,
+                                                                 "thread_started_after_close": "thread_started_after_close" in labels})
+                else:
+                    real_threading.Thread.join(t, 60.0)
+                    if t.is_alive():
+                        raise HarnessError("finished participant thread did not exit")
             if env.select_depth:
                 env.problem("C40.select_in_progress_after_close", {})
             if probe._waker_r.fileno() != -1 or probe._waker_w.fileno() != -1:
@@ -629,7 +676,17 @@ def _ebadf_program(draw):
     return head + body + draw(st.lists(_op, max_size=3))
 
 
-sched_case_s = st.fixed_dictionaries({
+_no_run_op = st.one_of(
+    *_w(st.tuples(st.just("add_reader"), _fd), 3),
+    st.tuples(st.just("add_writer"), _fd),
+    st.tuples(st.just("ready"), _fd),
+    st.tuples(st.just("remove_reader"), _fd),
+)
+# close() before the wrapped loop has run for the first time (the selector thread does not exist yet):
+# immediately after construction, or after some registrations; the loop runs afterwards.
+_early_close_program = st.lists(_no_run_op, max_size=3).map(lambda ops: list(ops) + [("close",)])
+
+_general_case_s = st.fixed_dictionaries({
     "program": st.one_of(st.lists(_op, min_size=2, max_size=15), st.lists(_op, min_size=2, max_size=15).map(list),
                          _ebadf_program()),
     "start_first": st.booleans(),
@@ -637,7 +694,18 @@ sched_case_s = st.fixed_dictionaries({
     "schedule": st.lists(st.integers(0, 1), max_size=80),
     "shutdown": st.sampled_from(["close", "close", "atexit", "aclose"]),
     "oneshot": st.lists(_fd, max_size=2, unique=True),
+    "run_loop_after_close": st.booleans(),
 })
+_early_close_case_s = st.fixed_dictionaries({
+    "program": _early_close_program,
+    "start_first": st.just(False),
+    "tail_policy": st.sampled_from(["stay", "switch"]),
+    "schedule": st.lists(st.integers(0, 1), max_size=30),
+    "shutdown": st.sampled_from(["close", "close", "atexit"]),
+    "oneshot": st.just([]),
+    "run_loop_after_close": st.just(True),
+})
+sched_case_s = st.one_of(*_w(_general_case_s, 6), _early_close_case_s)
 
 _smoke_op = st.one_of(
     st.tuples(st.just("add"), _fd),
